@@ -620,20 +620,27 @@ def isNullV : Val → Bool
   | .null => true
   | _ => false
 
-/-- F-C03-10: a parenthesised pattern indexes a string by *bytes* (`'hé'` has size 3; the element
-that would split `é` is Null), whereas unpacking the same string yields its characters:
-`match 'hé'` / `(a, b, rest...)` binds `a = 'h'`, `b = null`, `rest = null`; `a, b = 'hé'` gives
-`'h'`, `'é'`.  (`Decl` follows the implementation here — the byte view of `Match.view`; the two
-notions of "element" coincide exactly on ASCII strings.) -/
+/-- F-C03-10: a parenthesised pattern indexes a string by *bytes* (`'hé'` has size 3) and — since
+/repo 36e891c — raises when an element would cut a character (before: bound Null), whereas
+unpacking the same string yields its characters: `match 'hé'` / `(a, b, rest...)` raises
+"indexing with (1) would result in invalid UTF-8 data"; `a, b = 'hé'` gives `'h'`, `'é'`.
+On strings without multi-byte characters (`noCont`, part of `plain`) the byte view *is* the
+character view and `pat_spec` applies. -/
 theorem multibyte_string_match_vs_unpack_witness :
-    (let r := evalMatch F0 Cfg.repaired (.expr (.str [104, 195, 169]))
-        [⟨[.one (.seq [.id 0 none, .id 1 none] (some (some 2)) [])], none⟩] ρ0
-     isArm 0 r.out = true ∧ isStr [104] (outEnv r.out 0) = true ∧ isNullV (outEnv r.out 1) = true ∧
-       isNullV (outEnv r.out 2) = true) ∧
+    isErr .utf8 (evalMatch F0 Cfg.repaired (.expr (.str [104, 195, 169]))
+        [⟨[.one (.seq [.id 0 none, .id 1 none] (some (some 2)) [])], none⟩, ⟨[], none⟩] ρ0).out = true ∧
     (match Unpack.elems (.str [104, 195, 169]) with
      | some [a, b] => isStr [104] a && isStr [195, 169] b
      | _ => false) = true := by
   constructor <;> decide
+
+/-- on a string without multi-byte characters a pattern sees exactly the elements that unpacking
+yields (the two notions of "element of a string" coincide) -/
+theorem ascii_string_view_witness :
+    (match view (.str [97, 98]), Unpack.elems (.str [97, 98]) with
+     | some (xs, _), some ys => xs.length == ys.length && isStr [97] (xs.headD .null) && isStr [97] (ys.headD .null)
+     | _, _ => false) = true := by
+  decide
 
 /-! ### non-vacuity -/
 
